@@ -336,9 +336,62 @@ func init() {
 		return nil
 	}
 	externals["(*time.Ticker).Reset"] = func(fr *frame, args []value) value { return nil }
+	// One-shot timers (time.AfterFunc, time.NewTimer): armed on creation and by
+	// Reset, disarmed by Stop and by firing; like tickers they fire only through
+	// rt.FireTickers - an AfterFunc's function then runs on a goroutine of its own.
+	newTimer := func(fr *frame, fn value) value {
+		t := namedType(fr.i.prog, "time", "Timer")
+		st := zero(t).(structure)
+		ts := &tickerState{oneShot: true, armed: true, fn: fn}
+		if fn == nil {
+			ts.ch = make(chan value, 1)
+			st[0] = ts.ch
+		}
+		ts.ptr = mkPtr(st)
+		e := ex(fr)
+		e.tickers = append(e.tickers, ts)
+		return ts.ptr
+	}
+	externals["time.AfterFunc"] = func(fr *frame, args []value) value { return newTimer(fr, args[1]) }
+	externals["time.NewTimer"] = func(fr *frame, args []value) value { return newTimer(fr, nil) }
+	timerOf := func(fr *frame, p value) *tickerState {
+		for _, t := range ex(fr).tickers {
+			if t.oneShot && t.ptr == p {
+				return t
+			}
+		}
+		panic(engineUnsupported{"time.Timer that was not made by NewTimer/AfterFunc"})
+	}
+	externals["(*time.Timer).Stop"] = func(fr *frame, args []value) value {
+		t := timerOf(fr, args[0])
+		was := t.armed
+		t.armed = false
+		return was
+	}
+	externals["(*time.Timer).Reset"] = func(fr *frame, args []value) value {
+		t := timerOf(fr, args[0])
+		was := t.armed
+		t.armed = true
+		return was
+	}
 	externals[rtPkg+".FireTickers"] = func(fr *frame, args []value) value {
 		e := ex(fr)
-		for _, t := range e.tickers {
+		for _, t := range append([]*tickerState{}, e.tickers...) {
+			if t.oneShot {
+				if !t.armed {
+					continue
+				}
+				t.armed = false
+				if t.fn != nil {
+					e.spawn(fr, token.NoPos, t.fn, nil)
+				} else {
+					select {
+					case t.ch <- timeValue(fixedNow()):
+					default:
+					}
+				}
+				continue
+			}
 			if t.stopped {
 				continue
 			}
@@ -365,6 +418,10 @@ type tickerState struct {
 	ptr     value
 	ch      chan value
 	stopped bool
+	// one-shot timers
+	oneShot bool
+	armed   bool
+	fn      value // AfterFunc: the function to run; nil: deliver on ch
 }
 
 func (t *gthread) String() string { return fmt.Sprintf("g%d(%s)", t.id, t.why) }
